@@ -13,6 +13,9 @@ VERIF = build.VERIF
 PROPS = {}
 
 
+CELLS_TXT = 'cells with content (number, boolean, error, text, number-looking text, quote-prefixed text; symbolic position and style) through the real Model edit and its move_cell / set_user_input re-entry, en and de locale; formulas typed through the real lexer+parser (`=B2+$C$3+D10:E12+Sheet2!A1` on Sheet1, `=Sheet1!B2*2` on Sheet2) with the edit position and count symbolic; computed values through the real evaluator before and after the edit (B2, C3 from {1.5, -2, 4, 0.25}, `=B2+$C$3`, `=Sheet1!B2+1`, position 1..=25, count 1..=4)'
+
+
 def prop(pid, **kw):
     PROPS[pid] = kw
 
@@ -36,7 +39,9 @@ prop('C28', prefix=['c01', 'c28'], bounds=UM_BOUNDS + '; selection setters with 
 prop('C05', prefix=['c05'],
      bounds='one sheet: a number cell A1 (any finite f64), the chain B1 = A1+1, C1 = B1+A1 typed before the cells it reads, two cycles (A2 = B2+1 / B2 = A2*2 and '
             'A3 = C3 / C3 = A3), a reader of a cycle (C2 = A2), a formula off every cycle (A4); Model::evaluate run from its MIR, a second pass, then A1 '
-            'replaced by another finite f64 and A4 by =A1+A1 and evaluated again; values read with get_cell_value_by_index',
+            'replaced by another finite f64 and A4 by =A1+A1 and evaluated again; values read with get_cell_value_by_index; two readers with the same formula, one placed '
+            'before and one after the cell they read (B1 = =C1 with C1 a number / boolean / empty / text / error; an overflowing product; a dynamic array blocked by user '
+            'content): both readers agree with each other and with what the read cell shows',
      outside='longer chains and cycles, ranges, names, spills and dynamic arrays (two-phase evaluation), cross-sheet dependencies, functions, '
              'the converse "shows #CIRC! only if on a cycle" beyond these cells')
 prop('C06', prefix=['c06'],
@@ -49,6 +54,11 @@ prop('C06', prefix=['c06'],
             'error behind it)',
      outside='^ (powf), ROUND to other digit counts, literals as operands, strings that look like numbers, comparison of numbers that differ '
              'beyond 15 significant digits, nested formulas, arrays and broadcasting, other text than abc, other errors than #N/A')
+prop('C07', prefix=['c07'],
+     bounds='one sheet with A1 = 1.5, B1 = A1+1, C1 = SUM(A1:B1), D1 = SEQUENCE(2) (spilling into D2), E1 = D2*2, A2 = C1&"x": a reference build (dependency order, one '
+            'evaluation at the end) against a build that enters the formulas in one of four orders (solver chooses), evaluates after every edit or only at the end, '
+            'and enters the number first or last; then both are evaluated again; seven cells compared',
+     outside='save-and-reload in between (bitcode / xlsx), other formulas and orders, volatile functions, larger spill chains')
 prop('C08', prefix=['c08'],
      bounds='Model::set_cells_with_result on a formula cell of each kind (plain, CSE anchor over <=2x2 with its spill cells, dynamic anchor) with a result that is any '
             'f64 (NaN and infinities included) or an array of 1x1..2x2 such numbers',
@@ -73,20 +83,22 @@ prop('C11', prefix=['c11'],
 prop('C12', prefix=['c12'],
      bounds='references: row/column/position/count any i32 inside the grid, sheet indices any u32; ranges: corners, context, position, count in '
             'rows 1..=120 x columns 1..=30 (whole grid in the thorough tier), whole-column/whole-row ranges at the real grid limits; '
-            'Model::insert_*: <=2 column descriptors or row records (widths/heights fixed to 8/13/21/34), 1 hyperlink, any in-grid position and count',
-     outside='cell content/value type/style moving through move_cell (text re-entry), CSE arrays, defined names, spills, recomputed values, '
-             'the parser that produced the reference node')
+            'Model::insert_*: <=2 column descriptors or row records (widths/heights fixed to 8/13/21/34), 1 hyperlink, any in-grid position and count; ' + CELLS_TXT,
+     outside='CSE arrays, defined names, spills, function calls in the moved formulas, values of other formulas than the two listed, '
+             'the parser that produced the reference node in the node-level harnesses')
 prop('C13', prefix=['c13'],
-     bounds='as C12 for deletion',
-     outside='cell content moving (move_cell re-entry), recomputed values, defined names, the parser')
+     bounds='as C12 for deletion (a deleted referenced line gives #REF! as text and as value)',
+     outside='as C12')
 prop('C14', prefix=['c14'],
-     bounds='position and count any i32 inside the grid; one CF coordinate; Model insert;delete on <=2 descriptors/records + 1 link',
-     outside='cell content, value types, formula text as a whole, computed values')
+     bounds='position and count any i32 inside the grid; one CF coordinate; Model insert;delete on <=2 descriptors/records + 1 link; cells with content and the '
+            'two formulas of C12 through insert;delete of the same lines',
+     outside='CSE arrays, defined names, spills, computed values')
 prop('C15', prefix=['c15'],
      bounds='single-line move of a reference: any offset inside the grid; CF chain block <=2 (quick) / <=3 (thorough); Model::move_rows_action '
             'block <=3, |offset| <=2, <=1 row record, 1 link (thorough: |offset| <=3); move_columns_action block <=1, |offset| <=2, '
-            '<=1 descriptor, 1 link (thorough: block <=2, |offset| <=3)',
-     outside='cell content re-entry, array-formula split checks, values, ranges under moves')
+            '<=1 descriptor, 1 link (thorough: block <=2, |offset| <=3); cells with content, the single-cell-reference formulas and the computed values of C12 '
+            'under block moves (<=2 lines, |offset| <=2)',
+     outside='array-formula split checks, ranges under moves, CSE arrays, defined names')
 prop('C16', prefix=['c16'],
      bounds='ref_is_in_area: any in-grid i32 and sheet ids; cut/copy: formula cell, reference targets, cut area and paste offsets inside rows 1..=120 x '
             'columns 1..=30 (offsets of either sign), same or other target sheet, reference on the cut sheet or another; ranges with absolute corners; '
@@ -96,8 +108,8 @@ prop('C16', prefix=['c16'],
              'clipboard.rs, conditional-format ranges and defined names under cut, values, ranges in the Model-level harness')
 prop('C17', prefix=['c17'],
      bounds='three sheets; `=Sheet2!A1+Sheet3!$B$2+Ghost!C3+D4+Ghost!A1:B2` on Sheet1 `=A1*Sheet1!B5` on Sheet2 and `=Sheet2!A1#` on Sheet3, typed through the real parser; rename of '
-            'any of the three sheets to one of New / My Sheet / a&b / TRUE / its own name in upper case; move of any sheet to any index',
-     outside='computed values (the rename re-evaluates; values are not compared), defined names, duplicate_sheet, formulas with function calls, other names')
+            'any of the three sheets to one of New / My Sheet / a&b / TRUE / its own name in upper case; move of any sheet to any index; computed values (real evaluator) of three cross-sheet formulas incl. SUM over a range on another sheet, inputs from {1.5, -2, 0.25}, before and after any such rename or move',
+     outside='defined names (global / sheet-local), duplicate_sheet, other names and formulas')
 prop('C18', prefix=['c18'],
      bounds='one cell at a symbolic position holding one of: the numbers 1.5 / 123 / -0.25 / 1234567.5, TRUE, FALSE, the text abc, the quote-prefixed texts '
             '123 / TRUE / #N/A / 1,5, an empty styled cell; default, bold or percent-formatted style; en and de locale (hand-built), en language; the same cells after one of TRUE / 12 / abc / \'x was typed over them (en)',
